@@ -1059,8 +1059,14 @@ func checkC16(c *lib.Ctx) {
 	r.Rule = "base space (enumerated completely): request server, every directory size 0..2*batch+2 x batch 1..5, and the DEFAULT MaxFilelist with sizes {0,1,B-1,B,B+1,2B-1,2B,2B+1,2B+2}, x scripted legal ListAt behaviours (EOF with the last entries or on the following call; short-batch cut patterns) x masks placing . and .. at fixed and at random positions (thorough: every pair of positions for n <= 12, several dot entries); os-backed server: real directories around the Readdir(128) batch boundary, of >= 1024 entries, with names of length 1 / 120 / 255 and names with spaces, newlines, non-UTF-8 bytes and dot look-alikes. " +
 		"Option dimensions laid over the base space (quick: rotated with co-prime periods and seed-dependent offsets, cost flat; thorough: additionally the full product allocator x max-tx-packet x start/working-directory+relative-path form x API on a reduced base): allocator on/off; WithRSMaxTxPacket/WithMaxTxPacket {none, 32768, 65536, 1 MiB}; WithStartDirectory / WithServerWorkingDirectory with the path argument absolute, `d`, `./d`, `x/../d`, `sub/d`, and a relative path without the option; consumer API ReadDir, ReadDirContext (live context), ReadDirContext cancelled when the k-th NAME reply arrives (listed-so-far prefix + context error or a complete listing; then ReadDir on the same client must be exact; the handle must have been closed), Walk (tree with sub-directories, every path once), Glob(dir/*); entry names {e<i>, mixed, 120 bytes, 255 bytes}; served attributes {size/mode/mtime, +uid/gid, +extended pairs, mixed within one reply, NameLookupFileLister long names}; 4 parallel listings on one client. " +
 		"non-trivial = listing that spans more than one batch or contains a dot entry or uses a non-default option; distinct by the whole case"
+	r.Rule += c16KRule
 	var cases []c16Case
 	if c.Replay != "" {
+		var k c16KCase
+		if err := lib.ReadReplay(c.Replay, &k); err == nil && k.Family == c16KFamily {
+			checkC16Kinds(c, &k)
+			return
+		}
 		var one c16Case
 		if err := lib.ReadReplay(c.Replay, &one); err != nil {
 			r.Fail(lib.Failure{Kind: "tie", Key: "replay", What: err.Error()})
@@ -1071,6 +1077,7 @@ func checkC16(c *lib.Ctx) {
 		}
 		cases = []c16Case{one}
 	} else {
+		defer checkC16Kinds(c, nil) // family kinds (c16_kinds.go), after everything else
 		off := make([]int, 8)
 		for i := range off {
 			off[i] = c.Rand.Intn(1000)
